@@ -294,7 +294,12 @@ def read_ndjson(path):
         for l in f:
             l = l.strip()
             if l:
-                out.append(json.loads(l))
+                try:
+                    out.append(json.loads(l))
+                except ValueError:
+                    # a driver that died while writing leaves a cut last line: what was written before it stands
+                    # (a missing summary line makes the caller INCONCLUSIVE or report the death)
+                    break
     return out
 
 
